@@ -82,6 +82,13 @@ def run_pool(modname, tier, seed, names, jobs):
                 done.append(n)
         for n in done:
             p, pc, t0 = running.pop(n)
+            if results[n] is None and p.exitcode is not None and p.exitcode < 0 and getattr(_OBS.get(n), "crash_is_violation", None):
+                results[n] = {"name": n, "harness_errors": [],
+                              "violations": [{"label": _OBS[n].crash_is_violation, "values": {"signal": -p.exitcode},
+                                              "reproduced": True,
+                                              "detail": "the worker process driving the compiled extension was killed by signal %d" % -p.exitcode}],
+                              "inconclusive": [], "paths": 0, "decisions": 0, "queries": 0, "solver_s": 0, "witnesses": 0,
+                              "samples": [], "checks": 0, "wall_s": 0, "exhausted": True, "reached": []}
             if results[n] is None:
                 results[n] = {"name": n, "harness_errors": ["worker process died (exit code %s)" % p.exitcode],
                               "violations": [], "inconclusive": [], "paths": 0, "decisions": 0, "queries": 0,
